@@ -1,0 +1,40 @@
+//go:build verif
+
+// Contracts for the proxy-proof gate (property C25). Comment-only.
+
+package vgirpc
+
+// VerifyProof: the MAC is computed, compared and the nonce recorded only for a timestamp
+// inside the two-sided window, over exactly the fields of this proof and this worker's origin.
+//
+//@ ghost pred bytesEqual(a []byte, b []byte)
+//@ func VerifyProof
+//@   property C25
+//@   requires cfg != nil
+//@   # age+ts is the clock reading whenever `now - ts` did not wrap; the claim is for clocks at or after 1970
+//@   at call hmac.New assert [window] 0 <= ts && 0 <= age + ts && age + ts <= 9223372036854775807 ==> -skew <= age && age <= skew
+//@   at call hmac.New assert [skew] skew == cfg.SkewSeconds
+//@   at call hmac.New assert [version] version == "v1"
+//@   at call proofCanonicalString assert [macinput] arg0 == kid && arg1 == tsRaw && arg2 == nonce && arg3 == cfg.OriginID
+//@   at call (*nonceCache).checkAndAdd assert [macfirst] bytesEqual(received, expected) && arg1 == nonce
+//@   ensures [accepted] result1 == nil ==> result0 != nil
+
+// ProofAuthenticate: the nonce cache remembers a nonce for as long as its timestamp can still
+// be accepted (window width 2*skew, whole seconds), for any sane skew (<= 10^9 s).
+//
+//@ func ProofAuthenticate
+//@   property C25
+//@   at call newNonceCache assert [ttlcovers] 0 < cfg.SkewSeconds && cfg.SkewSeconds <= 1000000000 ==> arg0 >= (2*cfg.SkewSeconds + 1) * 1000000000
+//@   at call newNonceCache assert [capacity] arg1 > 0
+
+//@ lemma nonceWindowCovered [C25]: forall ts int, skew int, n1 int, n2 int, ttl int ::
+//@   skew > 0 && ttl >= (2*skew+1)*1000000000 && n1 <= n2 &&
+//@   ts - skew <= n1 / 1000000000 && n1 / 1000000000 <= ts + skew &&
+//@   ts - skew <= n2 / 1000000000 && n2 / 1000000000 <= ts + skew ==> n2 < n1 + ttl
+
+// The returned authenticator: in require mode the inner authenticator (and acceptance) is
+// reachable only after the proof verified; every refusal is the same fixed failure.
+//
+//@ func ProofAuthenticate$1
+//@   property C25
+//@   at call "captured:inner" assert [gate] perr == nil || !required
